@@ -12,6 +12,7 @@ Correspondence: the real output and the real prepared stream against the impleme
 import json, random, warnings
 from harness import proto
 from harness import gen_templates as G
+from harness import gen_textraw as R
 from harness.framework import Result, pmap
 from harness.proto import Atom
 
@@ -271,6 +272,8 @@ def oracle_case(case, doc=None):
         d.update(kw)
         return d
 
+    if case['check'] in ('scanprint', 'scanprint-old', 'scanverb'):
+        return scan_oracle(case)
     if case['check'] == 'raw':
         # a template given by its source (shapes the AST cannot express) with the documented output
         got = real_raw(case['lang'], [['raw', case['source']]], case['data'], lookup_of(case))
@@ -696,6 +699,136 @@ def applicable_checks(case):
     return out
 
 
+# --------------------------------------------------------------------------
+# character level: the scanners of the text templates (Model/TmplScan.lean)
+
+def escape_old(s):
+    """old syntax: a backslash in front of every '#' (OldTextTemplate turns '\\#' into '#')"""
+    return s.replace('#', '\\#')
+
+
+def print_old(toks):
+    out = []
+    for t in toks:
+        if t[0] == 'T':
+            out.append(escape_old(t[1]))
+        elif t[0] == 'D':
+            out.append('%s#%s%s\n' % (t[3], t[1], ' ' + t[2] if t[2] else ''))
+        else:
+            out.append('##%s\n' % t[1])
+    return ''.join(out)
+
+
+def gen_old_toks(rng):
+    """old syntax: texts end a line, a directive is a line `[blanks]#cmd value`, a comment a line `##…`"""
+    out = []
+    TEXT = ['a\n', 'b c\n', '#if x\n', '  #end\n', '## k\n', 'x # y\n', '\\\n', '\n', '\u00e9\n', '#\n', '\\#z\n', '#include q\n']
+    def body(depth, n):
+        for _ in range(n):
+            r = rng.random()
+            if r < 0.45:
+                if not out or out[-1][0] != 'T':
+                    out.append(['T', ''.join(rng.choice(TEXT) for _ in range(rng.randint(1, 3)))])
+            elif r < 0.75 and depth < 3:
+                cmd = rng.choice(R.CT_OPEN)
+                out.append(['D', cmd, rng.choice(['x', 'x == 1', 'i in xs', 'y=1', 'f(a)', "'#'", '']), rng.choice(['', '', ' ', '\t '])])
+                body(depth + 1, rng.randint(0, 3))
+                out.append(['D', 'end', rng.choice(['', '', cmd]), rng.choice(['', ' '])])
+            else:
+                out.append(['C', rng.choice([' c', 'c', '', '#', ' $x ${', 'if x', ' #end'])])
+    body(0, rng.randint(1, 6))
+    return out
+
+
+def expected_old(toks):
+    conv = []
+    for t in toks:
+        if t[0] == 'D':
+            conv.append(['D', t[1], (t[2] + '\n') if t[2] else None])
+        else:
+            conv.append(t)
+    return R.expected_stream(conv)
+
+
+def scan_oracle(case):
+    """the documented constructs mean themselves, on the real code (no model involved: the source is
+    the printed form of the tokens, the expectation their nesting)"""
+    def bad(what, expected, observed):
+        return {'case': case, 'what': what, 'expected': expected, 'observed': observed}
+    check = case['check']
+    if check == 'scanprint':
+        toks = case['tokens']
+        src = R.print_new([toks])[0]
+        if src != case.get('source', src):
+            return None
+        got = R.real_parse('newtext', src)
+        exp = ['ok', R.expected_stream(toks)]
+        if got != exp:
+            return bad('a printed well-formed token list (documented escapes) is parsed to itself', exp, got)
+    elif check == 'scanprint-old':
+        toks = case['tokens']
+        got = R.real_parse('oldtext', print_old(toks))
+        exp = ['ok', expected_old(toks)]
+        if got != exp:
+            return bad('old syntax: text with \\# escapes, #directive lines and ## comment lines are parsed to themselves', exp, got)
+    elif check == 'scanverb':
+        text, lang = case['text'], case['lang']
+        if '$' in text or not text:
+            return None
+        src = R.print_new([[['T', text]]])[0] if lang == 'newtext' else escape_old(text)
+        got = R.render(lang, src)
+        if got != ['ok', text]:
+            return bad('text outside directives reaches the output verbatim (modulo the documented escapes)', ['ok', text], got)
+    return None
+
+
+VERB_CH = ['a', ' ', '\n', '\\', '{', '%', '#', '}', '{%', '{#', '%}', '#}', '\r\n', '\u00e9', 'if', '\\\n', '.', '\t', '##', '\n#', '\n  #end', '\\#']
+
+
+def scan_part(res, rng, n):
+    """correspondence of the character-level scanners + their oracles on the real code"""
+    for lang in ('newtext', 'oldtext'):
+        srcs = [R.gen_raw(rng, lang) for _ in range(n)]
+        for src, (mt, mp) in zip(srcs, R.model_answers(lang, srcs)):
+            rt = R.real_tokens(lang, src)
+            rp = R.real_parse(lang, src)
+            res.evaluations += 1
+            res.streams['text-scan-tokens'] = res.streams.get('text-scan-tokens', 0) + 1
+            res.count('scan:%s:%s' % (lang, rp[0] if rp[0] == 'ok' else rp[1]))
+            for t in rt:
+                res.count('scan-tok:%s:%s' % (lang, t[0]))
+            if mt != rt:
+                res.disagreements.append({'stream': 'text-scan-tokens', 'case': {'lang': lang, 'source': src},
+                                          'model': repr(mt)[:600], 'real': repr(rt)[:600], 'source': src})
+            if mp is None:
+                res.count('scan:unmodelled')
+                continue
+            res.streams['text-scan-parse'] = res.streams.get('text-scan-parse', 0) + 1
+            if mp != rp:
+                res.disagreements.append({'stream': 'text-scan-parse', 'case': {'lang': lang, 'source': src},
+                                          'model': repr(mp)[:600], 'real': repr(rp)[:600], 'source': src})
+            elif rp[0] == 'ok' and sum(1 for t in rt if t[0] != 'T') >= 2 and len(src) < 200:
+                res.nontrivial.add(json.dumps(['scan', lang, src]))
+    toks = [R.gen_ctoks(rng) for _ in range(n)]
+    for t, src in zip(toks, R.print_new(toks)):
+        res.count('check:scanprint')
+        f = scan_oracle({'check': 'scanprint', 'lang': 'newtext', 'tokens': t, 'source': src})
+        if f:
+            res.failures.append(f)
+    for _ in range(n):
+        res.count('check:scanprint-old')
+        f = scan_oracle({'check': 'scanprint-old', 'lang': 'oldtext', 'tokens': gen_old_toks(rng)})
+        if f:
+            res.failures.append(f)
+    for _ in range(n):
+        lang = rng.choice(['newtext', 'oldtext'])
+        text = ''.join(rng.choice(VERB_CH) for _ in range(rng.randint(1, 8)))
+        res.count('check:scanverb')
+        f = scan_oracle({'check': 'scanverb', 'lang': lang, 'text': text})
+        if f:
+            res.failures.append(f)
+
+
 def shard(arg):
     seed, idx, n, use_model = arg
     warnings.simplefilter('ignore')
@@ -760,6 +893,8 @@ def shard(arg):
                     if impl_ex != real_ex:
                         res.disagreements.append({'stream': 'impl-exact-events', 'case': c, 'model': repr(impl_ex)[:600],
                                                   'real': repr(real_ex)[:600], 'source': G.source(c['lang'], c['nodes'])})
+    if use_model:
+        scan_part(res, random.Random('%s/%s/C04-scan' % (seed, idx)), max(20, n // 2))
     res.samples = [{'lang': c['lang'], 'source': G.source(c['lang'], c['nodes']), 'data': c['data']} for c in cases[:2]]
     return res
 
@@ -781,6 +916,8 @@ def run(ctx):
 def search(ctx, res, broken):
     found = []
     for d in res.disagreements[:100]:
+        if 'nodes' not in d['case']:
+            continue
         for check in applicable_checks(d['case']):
             try:
                 f = oracle_case(dict(d['case'], check=check))
